@@ -172,7 +172,7 @@ def r_variant_tree(model, rep):
             it = T.unwrap(mk[0].loops[-1][1])
             while it[0] == "call" and it[1] in (("global", "sorted"), ("global", "list")) and len(it[2]) == 1:
                 it = T.unwrap(it[2][0])
-            if it[0] == "comp" and it[1] == "list" and len(it[3]) == 1 and it[3][0][1] == sec:
+            if it[0] == "comp" and it[1] in ("list", "gen") and len(it[3]) == 1 and it[3][0][1] == sec:
                 comp_form = it
     if comp_form is not None:
         var = ("bound", comp_form[3][0][0][1])
@@ -888,11 +888,16 @@ def r_ti_variant_tree(model, rep):
         msg = "every listed child must be deserialised under its uid and then attached"
         if ok:
             it = T.unwrap(ad.loops[-1][1])
-            ok = it[0] == "comp" and T.contains(it, lambda x: x[0] == "call" and x[1][0] == "attr" and x[1][2] == "split" and x[2] == (("const", ","),)
+            # (the list of non-empty uids: a filtering comprehension, or - the canonical form of the same - the split itself looped
+            # over with the empty pieces skipped)
+            ok = (it[0] == "comp" or (it[0] == "call" and it[1][0] == "attr" and it[1][2] == "split" and any(
+                T.contains(g_[0], lambda y: y == el) for g_ in T.guard_tests(ad)))) \
+                and T.contains(it, lambda x: x[0] == "call" and x[1][0] == "attr" and x[1][2] == "split" and x[2] == (("const", ","),)
                                                 and x[1][1][0] == "call" and x[1][1][1] == ("attr", IN, "get") and x[1][1][2][1] == ("const", "addons"))
             msg = "child uids must be read from the 'addons' option split on ','"
         if ok:
             ng = [facts.canon_guard_pair(g_) for g_ in facts.non_gate_guards(ad)]      # ``if has: ...`` and ``if not has: return``
+            ng = [g_ for g_ in ng if not (g_[0] == el and g_[1])]       # the filter on empty pieces of the split (see above)
             ok = len(ng) == 1 and ng[0][1] and ng[0][0][0] == "call" and ng[0][0][1] == ("attr", IN, "has_option") and ng[0][0][2][1] == ("const", "addons")
             msg = "children must be read exactly when the 'addons' option exists"
     rep.ob("R-TI-VARIANT-TREE", "treeinfo.Variant.deserialize_1_0:children", ok, site=gcx.site(g.node), msg="" if ok else msg)
@@ -998,6 +1003,17 @@ def r_option_lookup(model, rep, rule_id="R-LEGACY-MAP"):
             sec, opt = ("idx", var, 0), ("idx", var, 1)
             ok = comp[3][0][1] == lst and comp[2] == ("call", ("attr", S, "get"), (sec, opt), ()) \
                 and tuple(comp[3][0][2]) == (("call", ("attr", S, "has_option"), (sec, opt), ()),)
+    if not ok and len(rets) == 2 and not inl:
+        # the pair is searched first and read afterwards:
+        #   found = next(((s, o) for s, o in pairs if self.has_option(s, o)), None); if found is None: return default; return self.get(*found)
+        b = ("bound", "$0")
+        sec, opt = ("idx", b, 0), ("idx", b, 1)
+        N = ("call", ("global", "next"), (("comp", "gen", ("tuple", (sec, opt)), ((("names", "$0"), lst, (
+            ("call", ("attr", S, "has_option"), (sec, opt), ()),)),)), ("const", None)), ())
+        none = ("cmp", ("is",), (N, ("const", None)))
+        want = {(dflt, ((none, True),)), (("call", ("attr", S, "get"), (("starred", N),), ()), ((none, False),))}
+        got = set((r.value, tuple((g[0], g[1]) for g in r.guards if g[0][0] != "exc")) for r in rets)
+        ok = got == want and not cx.ex.falls_through
     rep.ob(rule_id, "SortedConfigParser.option_lookup", ok, site=cx.site(f.node),
            msg="" if ok else "option_lookup must return self.get(section, option) for the first listed pair for which "
                              "self.has_option(section, option) holds, else the default")
